@@ -258,7 +258,7 @@ Qed.
 
 Lemma iB_chkf_go c t q b :
   IInvA e L c -> IInvB c -> In t L -> t_pc (c_pool c t) = PChkF q b -> s_f (c_sh c) = false ->
-  IInvB (commit c t (c_sh c) (set_pc (c_pool c t) (PLdY q b)) (LAtom t SF ALoad 0 (bN (s_f (c_sh c)))) []).
+  IInvB (commit c t (c_sh c) (set_pc (c_pool c t) (PLdY q b)) (LAtom t SF ALoad 0 (bN (s_f (c_sh c))) (o_chkf q)) []).
 Proof.
   intros A I Hin Hpc Hf.
   apply iB_silent; try assumption; auto.
@@ -332,7 +332,7 @@ Qed.
 
 Lemma iB_setf_go c t q b g :
   IInvA e L c -> IInvB c -> In t L -> t_pc (c_pool c t) = PSetF q b g ->
-  IInvB (commit c t (with_f (c_sh c) true) (set_pc (c_pool c t) (PPub q b g)) (LAtom t SF AStore 1 0) []).
+  IInvB (commit c t (with_f (c_sh c) true) (set_pc (c_pool c t) (PPub q b g)) (LAtom t SF AStore 1 0 (o_setf q)) []).
 Proof.
   intros A I Hin Hpc.
   pose proof (p_setf _ _ _ _ _ (a_prot e L c A) t q b g ltac:(unfold pcs_of; exact Hpc)) as Hex.
@@ -455,7 +455,7 @@ Lemma iB_finish_got c t q b g cnt :
   IInvA e L c -> IInvB c -> In t L -> t_pc (c_pool c t) = PPub q b g ->
   b = s_y (c_sh c) -> cnt = N.of_nat (length g) -> 1 <= cnt -> cnt <= q_n q -> b + cnt = s_cur (c_sh c) -> b < e_len e ->
   (cnt < q_n q -> b + cnt = e_len e) -> (forall v, q_mode q = MSingle v -> cnt = 1) ->
-  IInvB (finish e c t (with_y (c_sh c) (b + q_n q)) (c_pool c t) (LAtom t SY AAdd (q_n q) b) q
+  IInvB (finish e c t (with_y (c_sh c) (b + q_n q)) (c_pool c t) (LAtom t SY AAdd (q_n q) b (o_pub q)) q
                 (Ok (PRGot b [mk_run (Some b) (val_of e b) cnt] cnt))).
 Proof.
   intros A I Hin Hpc Hb Hcnt Hk1 Hcn Hbc Hbl Hsh Hone.
